@@ -10,7 +10,8 @@ class C14(WigBedProp):
     view_tags = ("R", "FINAL", "PREFIX", "FIRSTOPEN", "FAULT")
     rule = ("small bigWig / bigBed inputs (1–3 chromosomes), inputs with > 8 KiB of data per chromosome (so that the nested "
             "BufWriters spill mid-stream) and inputs of 3–5 chromosomes with 2–7 KiB each (tails below the BufWriter capacity "
-            "that exceed it together), all option records; for each: the recorded sequence of destination operations, every "
+            "that exceed it together), inputs of 3–4 chromosomes of 10–40 KiB each (a staged chromosome is copied into the destination "
+            "at the hand-over), all option records; for each: the recorded sequence of destination operations, every "
             "prefix replayed into an empty buffer and opened with the real readers (rejected / complete / partial: all chromosomes, "
             "every record and every zoom record compared with the complete file), and the write repeated with the k-th destination "
             "operation failing, for every k and operation kind. Non-trivial = every case (each contributes all its prefixes and "
@@ -60,6 +61,24 @@ class C14(WigBedProp):
                             for j, n in enumerate(names)}
                     lines = [bbgen.opt_line(o)] + bbgen.wig_lines(names, sizes, data)
                 tags.add("tails_cross_bufwriter_capacity")
+            if k % 5 == 2:
+                # several chromosomes EACH larger than the 8 KiB BufWriter: a chromosome staged aside is copied into the
+                # destination in one large write when the file is handed to it (await_real_file / update), so a fault can
+                # land on the hand-over copy itself
+                nch = r.choice([3, 4])
+                names = ["chrA", "chrB", "chrC", "chrD"][:nch]
+                sizes = {n: 200000 for n in names}
+                o["compress"] = 0
+                o["ips"] = 1024
+                o["inmem"] = r.choice([0, 1])
+                if bed:
+                    data = {n: [(i * 9, i * 9 + 5, "item%d" % (i * 7919 % 1000)) for i in range(r.range(700, 1500))] for n in names}
+                    lines = [bbgen.opt_line(o)] + bbgen.bed_lines(names, sizes, data)
+                else:
+                    data = {n: [(i * 9, i * 9 + 4, bbgen.f32bits(float(1 + (i * 7919 + j) % 97))) for i in range(r.range(1200, 3200))]
+                            for j, n in enumerate(names)}
+                    lines = [bbgen.opt_line(o)] + bbgen.wig_lines(names, sizes, data)
+                tags.add("handover_copy_exceeds_bufwriter")
             tags.add("bed" if bed else "wig")
             if big:
                 tags.add("spills_bufwriter")
